@@ -1,7 +1,8 @@
 (* C12 — the hypotheses of the theorems are satisfiable, and the functions do what the comments say
    on small inputs (vm_compute). *)
 From Verif.Base Require Import Tactics.
-From Verif.C12 Require Import Extracted Model Proofs Proofs2 Proofs3 Proofs4 Proofs5.
+From Verif.C12 Require Import Extracted Model Proofs Proofs2 Proofs3 Proofs4 Proofs5 Proofs6.
+From Verif.C08 Require Model Spec Repack.
 From Verif.C13 Require Extracted Model.
 Local Open Scope N_scope.
 
@@ -149,4 +150,26 @@ Example heap_example :
   option_map (fun r => n_name (fst (fst r))) (heap_pop (heap_push (heap_push (heap_push [] (hn 5)) (hn 3)) (hn 4))) = Some 3.
 Proof.
   split; [|vm_compute; reflexivity]. repeat apply heap_push_ok. apply heap_ok_nil.
+Qed.
+
+(* copy_preserves_content: one blob copied out of a two-blob source pack (decoders = identity, destination
+   blob encoding = a 1-byte frame, header encryption = 16 + 16 bytes) *)
+Module E8 := Verif.C08.Model.
+Module ER := Verif.C08.Repack.
+Example copy_preserves_content_hypotheses :
+  let p1 := repeat 1 32 in
+  let sstore := fun p => if E8.bytes_eqb p p1 then Some [10; 11; 12; 13; 14] else None in
+  let es := [ER.mkce p1 (ER.mkloc 2 3 None) (repeat 8 32)] in
+  let denc := fun x => 99 :: x in
+  let enc := fun x => repeat 0 16 ++ x ++ repeat 0 16 in
+  exists out packs,
+    NoDup (map ER.ce_id es) /\
+    ER.repack true sstore (fun d _ => Some d) es = E8.Ok out /\
+    Forall Verif.C08.Spec.wf_op (Proofs6.dest_ops denc (fun _ => None) out [true]) /\
+    E8.packer_run enc E8.Data (Proofs6.dest_ops denc (fun _ => None) out [true]) = E8.Ok packs /\
+    length packs = 1%nat.
+Proof.
+  cbv zeta. eexists. eexists. split; [repeat constructor; intros []|].
+  split; [vm_compute; reflexivity|]. split; [repeat constructor; cbn; lia|].
+  split; [vm_compute; reflexivity | reflexivity].
 Qed.
